@@ -594,7 +594,19 @@ fn dump_doc(idx: &str, flags: &str, input: &str, opt: ParsingOptions, doc: &Docu
                 write!(c, "{:?}", ns).unwrap();
             }
         }
-        writeln!(o, "{} G ok {}", idx, lc.0).unwrap();
+        // Debug of ExpandedName writes the namespace URI with {} (raw), every other string with {:?} (escaped): a URI that
+        // contains a line break (possible through a character reference) adds line breaks that are not writeln! calls.
+        // The model counts writeln! calls, so those raw line breaks are subtracted here.
+        let mut raw = 0usize;
+        for node in doc.descendants() {
+            if node.is_element() {
+                raw += node.tag_name().namespace().map(|u| u.bytes().filter(|b| *b == b'\n').count()).unwrap_or(0);
+                for a in node.attributes() {
+                    raw += a.namespace().map(|u| u.bytes().filter(|b| *b == b'\n').count()).unwrap_or(0);
+                }
+            }
+        }
+        writeln!(o, "{} G ok {}", idx, lc.0 - raw).unwrap();
     }
 }
 
